@@ -18,16 +18,16 @@ Theorem auth_first_everywhere : forall env : nat -> bool,
 Proof. intros env H. split; [exact gen_has_credential_atoms | exact (proj1 (gen_ok env H))]. Qed.
 Print Assumptions auth_first_everywhere.
 
-(* For every configuration, every login/password, every request (any method, path, Authorization bytes,
+(* For every configuration, every served root router, every login/password, every request (any method, path, Authorization bytes,
    Accept-Encoding, anything else), every handler and every behaviour of unknown middlewares:
    if the handler of the matched route runs, the header is "Basic <text>" with <text> a complete valid base64 text
    decoding to login:pass; and a request without exactly those credentials runs no handler, is not buffered by the
    compression wrapper, and is answered 401/400 by BasicAuth itself (after pass-through wrappers only) or 404/405 by
    the router's own dispatch. *)
 Theorem no_handler_without_credentials :
-  forall (env : nat -> bool) login pass other h q,
+  forall (env : nat -> bool) login pass other h root q,
   (forall a, In a gen_must -> env a = true) ->
-  let p := dispatch true login pass other h (active env gen_assembly) q in
+  let p := dispatch true login pass other h (active env gen_assembly) root q in
   (handler_ran p = true ->
      exists rest, q_auth q = "Basic " ++ rest /\ b64_decode_ok rest = true /\
                   b64_decode_prefix rest = login ++ ":" ++ pass) /\
@@ -36,25 +36,25 @@ Theorem no_handler_without_credentials :
      (p_status p = 401 \/ p_status p = 400 \/ p_status p = 404 \/ p_status p = 405)%N /\
      ((p_status p = 401 \/ p_status p = 400)%N -> exists pre, forallb transparent pre = true /\
         p_trace p = (map EvNext pre ++ [EvReject (p_status p)])%list)).
-Proof. intros env login pass other h q H. exact (assembly_no_handler login pass other h _ (proj1 (gen_ok env H)) q). Qed.
+Proof. intros env login pass other h root q H. exact (assembly_no_handler login pass other h _ (proj1 (gen_ok env H)) root q). Qed.
 Print Assumptions no_handler_without_credentials.
 
 (* The header a client builds from the configured credentials (login without ':') reaches the handler of whatever
    route the request matches, through every middleware of the chain in Use order, and the handler's status is the
    answer -- for every Accept-Encoding and whatever else the request carries. *)
 Theorem right_credentials_pass :
-  forall (env : nat -> bool) login pass other h q rt,
+  forall (env : nat -> bool) login pass other h root q rt,
   (forall a, In a gen_must -> env a = true) ->
   has_char ":"%char login = false ->
   q_auth q = basic_header login pass ->
   let ops := active env gen_assembly in
-  lookup ops (q_method q) (q_path q) = FRoute rt ->
-  let p := dispatch true login pass other h ops q in
+  lookup ops root (q_method q) (q_path q) = FRoute rt ->
+  let p := dispatch true login pass other h ops root q in
   handler_ran p = true /\ p_status p = h q /\
   p_trace p = (map EvNext (chain ops (rt_router rt)) ++ [EvHandler])%list.
 Proof.
-  intros env login pass other h q rt H Hl Ha ops F.
-  exact (assembly_right_credentials login pass other h ops (proj2 (gen_ok env H)) q rt Hl Ha F).
+  intros env login pass other h root q rt H Hl Ha ops F.
+  exact (assembly_right_credentials login pass other h ops (proj2 (gen_ok env H)) root q rt Hl Ha F).
 Qed.
 Print Assumptions right_credentials_pass.
 
